@@ -167,14 +167,14 @@ theorem dict_scalars_to_live_point (cfg : Cfg V) (r : Registry V) (names : List 
     | nil => simp at hv
     | cons v vs =>
       simp only [List.map_cons, List.zip_cons_cons] at hkeys hall ⊢
-      simp only [dictToLivePoints, if_true, hkeys, hall, List.map_cons,
+      simp only [dictToLivePoints, hkeys, hall, List.map_cons,
         getDtype_ok cfg r (a :: ns) nsp hf, canon, List.map_nil]
 
-/-- a dictionary of equal-length sequences (`n ≠ 1` points, including `n = 0`) becomes the
-canonical array of the transposed values -/
+/-- a dictionary of equal-length sequences (any number of points `n`, including 0 and 1) becomes
+the canonical array of the transposed values -/
 theorem dict_arrays_to_live_points (cfg : Cfg V) (r : Registry V) (names : List String) (nsp : Bool)
     (cols : List (List V)) (n : Nat) (hf : Fresh r names nsp) (hne : names ≠ [])
-    (hc : cols.length = names.length) (hn : ∀ c ∈ cols, c.length = n) (hn1 : n ≠ 1) :
+    (hc : cols.length = names.length) (hn : ∀ c ∈ cols, c.length = n) :
     dictToLivePoints cfg r (names.zip (cols.map .arr)) nsp
       = .ok (canon cfg r names nsp (transpose n cols)) := by
   have hkeys := keys_zip names (cols.map DVal.arr) (by simpa using hc)
@@ -187,31 +187,31 @@ theorem dict_arrays_to_live_points (cfg : Cfg V) (r : Registry V) (names : List 
     | cons c cs =>
       have hcn : c.length = n := hn c (by simp)
       simp only [List.map_cons, List.zip_cons_cons] at hkeys hall ⊢
-      simp only [dictToLivePoints, hcn, hn1, if_false, hkeys, hall, List.map_cons]
-      by_cases h0 : n = 0
-      · subst h0
-        rw [emptyStructured_ok cfg r 0 (a :: ns) nsp hf (Or.inl rfl)]
+      subst hcn
+      simp only [dictToLivePoints, hkeys, hall, List.map_cons]
+      by_cases h0 : c.length = 0
+      · rw [h0, emptyStructured_ok cfg r 0 (a :: ns) nsp hf (Or.inl rfl)]
         simp [canon, transpose_zero]
-      · rw [emptyStructured_ok cfg r n (a :: ns) nsp hf (Or.inr (by simp))]
+      · rw [emptyStructured_ok cfg r c.length (a :: ns) nsp hf (Or.inr (by simp))]
         simp [canon]
 
-/-- **Round trip dictionary → live points → dictionary** (`n ≠ 1` points): the same keys in the
-same order with the same sequences. -/
+/-- **Round trip dictionary → live points → dictionary** (any number of points, including 0 and
+1): the same keys in the same order with the same sequences. -/
 theorem dict_roundtrip (cfg : Cfg V) (r : Registry V) (names : List String) (nsp : Bool)
     (cols : List (List V)) (n : Nat) (hf : Fresh r names nsp) (hne : names ≠ [])
-    (hc : cols.length = names.length) (hn : ∀ c ∈ cols, c.length = n) (hn1 : n ≠ 1) :
+    (hc : cols.length = names.length) (hn : ∀ c ∈ cols, c.length = n) :
     ∃ lp, dictToLivePoints cfg r (names.zip (cols.map .arr)) nsp = .ok lp
       ∧ lp.fields = names ++ nsNames r nsp
       ∧ livePointsToDict lp (some names) = .ok (names.zip cols) := by
-  refine ⟨_, dict_arrays_to_live_points cfg r names nsp cols n hf hne hc hn hn1, rfl, ?_⟩
+  refine ⟨_, dict_arrays_to_live_points cfg r names nsp cols n hf hne hc hn, rfl, ?_⟩
   have hrows := rows_of_transpose n cols hn
   rw [canon_toDict cfg r names nsp _ hf (fun row h => by rw [hrows row h, hc])]
   rw [← hc, transpose_transpose n cols hn]
 
-/-- **Round trip live points → dictionary → live points** (`n ≠ 1` points) -/
+/-- **Round trip live points → dictionary → live points** (any number of points, incl. 0 and 1) -/
 theorem live_points_dict_roundtrip (cfg : Cfg V) (r : Registry V) (names : List String) (nsp : Bool)
     (data : List (List V)) (hf : Fresh r names nsp) (hne : names ≠ [])
-    (hd : ∀ row ∈ data, row.length = names.length) (hn1 : data.length ≠ 1) :
+    (hd : ∀ row ∈ data, row.length = names.length) :
     ∃ d, livePointsToDict (canon cfg r names nsp data) (some names) = .ok d
       ∧ dictToLivePoints cfg r (d.map fun kv => (kv.1, DVal.arr kv.2)) nsp
           = .ok (canon cfg r names nsp data) := by
@@ -227,18 +227,41 @@ theorem live_points_dict_roundtrip (cfg : Cfg V) (r : Registry V) (names : List 
       = names.zip ((transpose names.length data).map DVal.arr) := by
     rw [List.zip_map_right]
     simp [Prod.map]
-  rw [hzip, dict_arrays_to_live_points cfg r names nsp _ data.length hf hne hlen hcols hn1,
+  rw [hzip, dict_arrays_to_live_points cfg r names nsp _ data.length hf hne hlen hcols,
     transpose_transpose names.length data hd]
 
-/-- **DEFECT (reproduced on the real code).**  A dictionary whose first value is a sequence of
-length one — exactly what `live_points_to_dict` returns for a single live point — is never
-converted: the `N == 1` branch hands the sequences to `np.array([tuple])`, which raises
-`ValueError`.  So `n ≠ 1` in `dict_roundtrip` cannot be dropped. -/
-theorem dict_roundtrip_fails_without (cfg : Cfg V) (r : Registry V) (k : String) (x : V)
-    (rest : List (String × DVal V)) (nsp : Bool) :
-    ∃ e, dictToLivePoints cfg r ((k, .arr [x]) :: rest) nsp = .error e := by
-  simp only [dictToLivePoints, List.length_singleton, if_true, List.map_cons, DVal.scalar?, allSome]
-  cases getDtype cfg r (k :: rest.map Prod.fst) nsp with
+/-- **Regression guard for the repaired defect** (nessai 0091c80).  A dictionary holding ONE point
+as length-one sequences — exactly what `live_points_to_dict` returns for a single live point —
+converts to the one-point canonical array (before the repair the `N == 1` branch handed the
+sequences to `np.array([tuple])`, which raised `ValueError`). -/
+theorem dict_length_one_sequences (cfg : Cfg V) (r : Registry V) (names : List String) (nsp : Bool)
+    (vals : List V) (hf : Fresh r names nsp) (hne : names ≠ []) (hv : vals.length = names.length) :
+    dictToLivePoints cfg r (names.zip ((vals.map fun v => [v]).map .arr)) nsp
+        = .ok (canon cfg r names nsp [vals])
+      ∧ dictToLivePoints cfg r (names.zip ((vals.map fun v => [v]).map .arr)) nsp
+        = dictToLivePoints cfg r (names.zip (vals.map .scalar)) nsp := by
+  have h1 := dict_arrays_to_live_points cfg r names nsp (vals.map fun v => [v]) 1 hf hne
+    (by simpa using hv) (by intro c hc; rw [List.mem_map] at hc; obtain ⟨v, _, rfl⟩ := hc; rfl)
+  have ht : transpose 1 (vals.map fun v => [v]) = [vals] := by
+    have := transpose_transpose vals.length [vals] (by simp)
+    have hcols : transpose vals.length [vals] = vals.map fun v => [v] := by
+      simp only [transpose]
+      clear this hv h1
+      induction vals with
+      | nil => rfl
+      | cons v vs ih => simp [List.replicate_succ, ih]
+    rw [hcols] at this
+    simpa using this
+  rw [ht] at h1
+  exact ⟨h1, by rw [h1, dict_scalars_to_live_point cfg r names nsp vals hf hne hv]⟩
+
+/-- the scalar branch is decided by the FIRST value only: a scalar first value followed by a
+sequence is rejected (`ValueError`), whatever the sequence's length — model = code -/
+theorem dict_scalar_then_sequence_rejected (cfg : Cfg V) (r : Registry V) (k k' : String) (x : V)
+    (xs : List V) (rest : List (String × DVal V)) (nsp : Bool) :
+    ∃ e, dictToLivePoints cfg r ((k, .scalar x) :: (k', .arr xs) :: rest) nsp = .error e := by
+  simp only [dictToLivePoints, List.map_cons, DVal.scalar?, allSome]
+  cases getDtype cfg r (k :: k' :: rest.map Prod.fst) nsp with
   | error e => exact ⟨e, rfl⟩
   | ok dt => exact ⟨.valueErr, rfl⟩
 
@@ -258,19 +281,19 @@ theorem dataframe_to_live_points (cfg : Cfg V) (r : Registry V) (cols : List Str
     simp [hr d hd, length_tail]
   simp only [dataframeToLivePoints, getDtype_ok cfg r cols nsp hf, hall, if_true, canon]
 
-/-- at this level of abstraction a data frame IS the dictionary of its columns: for `n ≠ 1` rows
-both conversions return the same array (for `n = 1` only the data-frame path works, see
-`dict_roundtrip_fails_without`); and it always agrees with the plain-array conversion. -/
+/-- at this level of abstraction a data frame IS the dictionary of its columns: for every number
+of rows (0, 1, n) both conversions return the same array, and it agrees with the plain-array
+conversion. -/
 theorem dataframe_eq_dict_eq_array (cfg : Cfg V) (r : Registry V) (names : List String) (nsp : Bool)
     (rows : List (List V)) (hf : Fresh r names nsp) (hne : names ≠ [])
     (hr : ∀ row ∈ rows, row.length = names.length) :
     dataframeToLivePoints cfg r names rows nsp
         = numpyArrayToLivePoints cfg r (.d2 names.length rows) names nsp
-      ∧ (rows.length ≠ 1 → dataframeToLivePoints cfg r names rows nsp
-          = dictToLivePoints cfg r (names.zip ((transpose names.length rows).map .arr)) nsp) := by
+      ∧ dataframeToLivePoints cfg r names rows nsp
+          = dictToLivePoints cfg r (names.zip ((transpose names.length rows).map .arr)) nsp := by
   rw [dataframe_to_live_points cfg r names nsp rows hf hr,
     array_to_live_points cfg r names nsp rows hf hne hr]
-  refine ⟨rfl, fun hn1 => ?_⟩
+  refine ⟨rfl, ?_⟩
   have hlen := length_transpose names.length rows hr
   have hcols : ∀ c ∈ transpose names.length rows, c.length = rows.length := by
     intro c hc
@@ -278,7 +301,7 @@ theorem dataframe_eq_dict_eq_array (cfg : Cfg V) (r : Registry V) (names : List 
     obtain ⟨j, hj, rfl⟩ := hc
     have hj' : j < names.length := by simpa using hj
     exact length_getCol j rows (fun row h => by rw [hr row h]; exact hj')
-  rw [dict_arrays_to_live_points cfg r names nsp _ rows.length hf hne hlen hcols hn1,
+  rw [dict_arrays_to_live_points cfg r names nsp _ rows.length hf hne hlen hcols,
     transpose_transpose names.length rows hr]
 
 /-! ## defaults -/
@@ -536,6 +559,7 @@ example :
     ∧ (numpyArrayToLivePoints c r (.d1 [4, 5]) ["x", "y"] true).toOption = some (canon c r ["x", "y"] true [[4, 5]])
     ∧ (parametersToLivePoint c r [4, 5] ["x", "y"] true).toOption = some (canon c r ["x", "y"] true [[4, 5]])
     ∧ (dictToLivePoints c r [("x", .arr []), ("y", .arr [])] true).toOption = some (canon c r ["x", "y"] true [])
+    ∧ (dictToLivePoints c r [("x", .arr [4]), ("y", .arr [5])] true).toOption = some (canon c r ["x", "y"] true [[4, 5]])
     ∧ (dictToLivePoints c r [("x", .scalar 4), ("y", .scalar 5)] false).toOption = some ⟨["x", "y"], 2, [[4, 5]]⟩
     ∧ (livePointsToArray (canon c r ["x", "y"] true [[1, 2], [3, 4]]) (some ["q", "y", "x"])).toOption
         = some (3, [[7, 2, 1], [7, 4, 3]])
